@@ -1154,3 +1154,64 @@ def quantifier_loops(view):
         out.append({"node": h, "iter": it, "var": h.ast.target.id, "test": src(inner.test), "sets": sets,
                     "kind": "all" if sets is False else "any"})
     return out
+
+
+def formula_unsat(f, g=None):
+    """is f (and g) unsatisfiable propositionally?  (f, g formulas as returned by path_condition / truth_formula)"""
+    h = ("and", [f, g]) if g is not None else f
+    atoms = sorted(_atoms(h, set()))
+    if len(atoms) > 16:
+        return False
+    import itertools
+    return not any(_eval(h, dict(zip(atoms, vals))) for vals in itertools.product((False, True), repeat=len(atoms)))
+
+
+def formula_of(text):
+    return _atom(ast.parse(text, mode="eval").body)
+
+
+def loop_continue_condition(view, header, by_value=True):
+    """the condition under which a `while` loop goes round once more: OR over the paths from its body back to its header of
+    the AND of the header test (true) and the tests taken inside the body"""
+    cfg = view.cfg
+    t = header.ast.test
+    if by_value:
+        try:
+            t = view.sym(t, header)
+        except Exception:
+            pass
+    head = _atom(t)
+    disj = []
+    for s0 in [b for b, lab in cfg.succ[header.id] if lab == "T"]:
+        if s0 == header.id:
+            disj.append(head)
+            continue
+        for p in cfg.paths(s0, [header.id], max_visits=1, limit=2000):
+            conj = [head]
+            for a, b in zip(p, p[1:]):
+                n = cfg.nodes[a]
+                if n.kind == "test" and n.id != header.id:
+                    lab = [l for x, l in cfg.succ[a] if x == b]
+                    if lab and lab[0] in ("T", "F"):
+                        tt = n.ast.test
+                        if by_value:
+                            try:
+                                tt = view.sym(tt, n)
+                            except Exception:
+                                pass
+                        f = _atom(tt)
+                        conj.append(f if lab[0] == "T" else ("not", f))
+            disj.append(("and", conj))
+    return ("or", disj)
+
+
+def formula_implies_f(f, g):
+    atoms = sorted(_atoms(f, set()) | _atoms(g, set()))
+    if len(atoms) > 16:
+        return False
+    import itertools
+    for vals in itertools.product((False, True), repeat=len(atoms)):
+        env = dict(zip(atoms, vals))
+        if _eval(f, env) and not _eval(g, env):
+            return False
+    return True
